@@ -67,6 +67,34 @@ def preferredConsistent (U : Universe) (P : Problem) : Option (List Nat) :=
           | none => false)
     then some pref else none
 
+/-! ### C14 (c): a soft requirement is only skipped if it cannot be installed -/
+
+/-- extend `base` by what `todo` still needs: a requirement already met by `base`/`acc` adds nothing, otherwise
+    its first choice (and that one's requirements) is added; `none` if something needed cannot be had -/
+def extendClosure (U : Universe) (base : List Nat) : Nat → List Req → List Nat → Option (List Nat)
+  | _, [], acc => some acc
+  | 0, _, _ => none
+  | fuel + 1, r :: rest, acc =>
+    if (U.reqCands r).any (fun c => base.contains c || acc.contains c) then extendClosure U base fuel rest acc
+    else match firstChoice U r with
+      | none => none
+      | some c =>
+        match U.deps c with
+        | .unknown _ => none
+        | .known reqs _ => extendClosure U base fuel (rest ++ reqs) (acc ++ [c])
+
+/-- the solution `sel` could have been extended by the soft solvable `s` (and first choices for what it needs)
+    without touching anything that is installed: then a run for `s` on top of `sel` cannot fail -/
+def softInstallable (U : Universe) (P : Problem) (sel exempt : List Nat) (s : Nat) : Option (List Nat) :=
+  if sel.contains s || U.excluded s || U.lockedOut s then none
+  else match U.deps s with
+    | .unknown _ => none
+    | .known reqs _ =>
+      let nReqs := (U.solvs.map (fun x => (knownReqs U x.1).length)).sum + reqs.length + 1
+      match extendClosure U sel (nReqs * (U.solvs.length + 2)) reqs [s] with
+      | none => none
+      | some ext => if validB U P (sel ++ ext) exempt then some ext else none
+
 def sameSet (a b : List Nat) : Bool := a.all (fun x => b.contains x) && b.all (fun x => a.contains x)
 
 /-- C08: all root requirements single, and some valid solution contains every first choice. -/
